@@ -97,3 +97,106 @@ def check(p, res, rule, prefixes):
         if ok_here:
             res.ok(rule, {"fn": f.pretty, "family": fam} if n % 5 == 1 else None)
     return n
+
+
+# ------------------------------------------------------------------ SIGN-2
+def check_negacyclic(p, res, rule, prefixes):
+    """negacyclic split kernels (multiplication by X^p): a path that writes the result with sign-preserving primitives only must be decided by the
+    residue of p modulo 2N, not by the residue modulo N alone (X^N = -1)."""
+    from . import sc
+    from .cfg import CFG
+    from .sym import Sym
+    n = 0
+
+    def residues(poly, acc):
+        for a in poly.atoms():
+            walk(a, acc)
+
+    def is_mask2n(key):
+        # 2*len - 1: some monomial with coefficient 2 (or -2 when written as 1 - 2n)
+        return any(abs(c) == 2 for mono, c in key if mono)
+
+    def walk(a, acc, under_mask=False):
+        if not isinstance(a, tuple):
+            return
+        if len(a) >= 3 and a[0] == "f" and a[1] == "BitAnd":
+            x, m = a[2]
+            if is_mask2n(m) or is_mask2n(x):
+                acc.add(("2n", under_mask))
+                return
+            # a further mask (n - 1) hides the 2N residue below it
+            for k in a[2]:
+                for mono, c in k:
+                    for b in mono:
+                        walk(b, acc, True)
+            return
+        if len(a) >= 3 and a[0] == "f":
+            for k in a[2]:
+                if isinstance(k, tuple):
+                    for item in k:
+                        if isinstance(item, tuple) and len(item) == 2 and isinstance(item[0], tuple):
+                            for b in item[0]:
+                                walk(b, acc, under_mask)
+
+    for f in sorted(p.lib_fns(), key=lambda x: x.uid):
+        if f.kind == "Closure" or not f.uid.startswith(prefixes):
+            continue
+        pol = {}
+        for bi, t in f.calls():
+            cn = (f.callee_def(t) or {}).get("n", "")
+            if cn in ("znx_copy", "znx_negate"):
+                pol[bi] = cn
+        if set(pol.values()) != {"znx_copy", "znx_negate"}:
+            continue
+        flow = Flow(f)
+        sym = Sym(f, flow)
+        # does the function compute a 2N residue at all?
+        has2n = False
+        for b in f.blocks:
+            for s in b["s"]:
+                if s[0] == "A" and s[2]["k"] == "Bin" and s[2]["op"] == "BitAnd":
+                    acc = set()
+                    residues(sym.operand(s[2]["o"][0]), acc)
+                    residues(sym.operand(s[2]["o"][1]), acc)
+                    k1 = sym.operand(s[2]["o"][1]).key()
+                    k0 = sym.operand(s[2]["o"][0]).key()
+                    if is_mask2n(k0) or is_mask2n(k1):
+                        has2n = True
+        if not has2n:
+            continue
+        n += 1
+        g = CFG(f)
+        paths = sc.returning_paths(f, g, cap=256)
+        if not paths:
+            res.undec(rule, "%s: paths not enumerable" % f.pretty)
+            continue
+        bad = None
+        for path in paths:
+            kinds = {pol[b] for b in path if b in pol}
+            if kinds != {"znx_copy"} and kinds != {"znx_negate"}:
+                continue
+            decided = False
+            nxt = {path[i]: path[i + 1] for i in range(len(path) - 1)}
+            for b in path:
+                t = f.blocks[b]["t"]
+                if not t or t["k"] != "Switch" or b not in nxt:
+                    continue
+                for r in flow.op_roots(t["o"]):
+                    if r[0] != "bin":
+                        continue
+                    st = f.blocks[r[1]]["s"][r[2]][2]
+                    for o in st["o"]:
+                        acc = set()
+                        residues(sym.operand(o), acc)
+                        if ("2n", False) in acc:
+                            decided = True
+            if not decided:
+                bad = (sorted(kinds)[0], path)
+                break
+        if bad:
+            res.bad(rule, f.pretty, "one-polarity-path:%s" % bad[0],
+                    "%s has a path that writes the result with %s only and is not decided by a test on the residue of the exponent modulo 2N (only modulo N): X^N = -1, "
+                    "so exponents congruent to N need the opposite sign" % (f.pretty, bad[0]), site=f.where())
+        else:
+            res.ok(rule, {"fn": f.pretty, "paths": len(paths)})
+    return n
